@@ -456,6 +456,151 @@ def co_simulate(facts, c, s, cfg, text, ports, names, ink, outk, depth, seed, b,
     return None, nseq
 
 
+# ---------------------------------------------------------------- whole designs
+def check_g(ctx, facts, tier, seed):
+    """C01.g: the text generated for whole (hierarchical) designs, flattened and read as Verilog, against the
+    netlist the same constructors elaborate to (evaluated through the leaf summaries)."""
+    import random
+    from ..elab import ElabError, ElabRaise, PyExc
+    from ..gen import hierarchy_text, GenError
+    from ..netlist import Design, NetError
+    from ..specs import SPECS
+    from ..structrules import input_vectors, sequences
+    from ..vfront import flatten, FrontError
+    from .c03 import composites
+    rnd = random.Random(seed + 101)
+    percfg = 1 if tier == 'quick' else 3
+    designs = []
+    for sp in SPECS:
+        cfgs = list(sp['configs'](tier))
+        step = max(1, len(cfgs) // percfg)
+        for p in cfgs[len(cfgs) // 2::step][:percfg]:
+            designs.append((sp['name'], str(p), (lambda D, sp=sp, p=p: sp['build'](D, p)), True, sp['seq'] is not None))
+    for name, b in composites():
+        designs.append((name, '', b, False, True))
+    done = 0
+    skipped = []
+    for name, ptxt, build, dut_top, is_seq in designs:
+        where = 'py4hw/rtl_generation.py (design: %s %s)' % (name, ptxt)
+        try:
+            D = Design(facts)
+            r = build(D)
+            D.prepare()
+            if dut_top:
+                ins, outs = r
+                top = D.sys.attrs['children']['dut']
+            else:
+                top = None
+                driven = set()
+                for cx in D.comb + D.seq:
+                    for w in cx.out_wires():
+                        driven.add(w.oid)
+                ins = {n: w for n, w in D.wires.items() if w.oid not in driven}
+                outs = {n: w for n, w in D.wires.items() if w.oid in driven}
+            text = hierarchy_text(D, top)
+            items, ports = flatten(text)
+        except ElabRaise:
+            continue
+        except (ElabError, NetError, FrontError) as e:
+            skipped.append('%s: %s' % (name, str(e)[:80]))
+            continue
+        except (PyExc, GenError) as e:
+            skipped.append('%s: %s' % (name, str(e)[:80]))
+            continue
+        except vlog.VParseError as e:
+            ctx.violation('C01.g', '%s:syntax' % name, 'the text generated for the design does not parse: %s' % e, where)
+            continue
+        # names of the design's inputs / outputs in the generated top module
+        vname = {}
+        if dut_top:
+            gvn = D.el.eval_name('getValidVerilogName', RTL)
+            for plist in ('inPorts', 'outPorts'):
+                for po in top.attrs.get(plist, []):
+                    vname[po.attrs['wire'].oid] = D.el.call(gvn, [po.attrs['name']], {}, {})
+        else:
+            for n, w in D.wires.items():
+                vname[w.oid] = 'w_' + n
+        try:
+            def fresh_body():
+                return Body(items, ports, strict=False)
+            vb = fresh_body()
+        except vlog.XValue as e:
+            ctx.violation('C01.g', '%s:illegal' % name, 'the generated design is not a legal closed design: %s' % e, where)
+            continue
+        missing = [n for n, w in list(ins.items()) + list(outs.items()) if vname.get(w.oid) not in vb.env]
+        if missing:
+            ctx.violation('C01.g', '%s:interface' % name, 'ports/nets of the design are missing from the generated text: %s' % missing[:4], where)
+            continue
+        widths = {n: w.attrs['width'] for n, w in ins.items()}
+        snap_vals = dict(D.values)
+        snap_attr = [(c_, dict(c_.cfg.attr)) for c_ in D.seq + D.comb]
+        viol = None
+        nrun = 0
+        try:
+            if not D.seq:
+                for v in input_vectors(ins, widths, 10 if tier == 'quick' else 12, 120, rnd):
+                    nrun += 1
+                    for n, w in ins.items():
+                        D.put(w, v[n])
+                    D.settle()
+                    vb.set_inputs({vname[w.oid]: v[n] for n, w in ins.items()})
+                    if vb.xflag:
+                        viol = dict(kind='the generated design is x / illegal for inputs the simulator defines: %s' % vb.xflag, inputs=v)
+                        break
+                    for n, w in outs.items():
+                        if D.get(w) != vb.env[vname[w.oid]].v:
+                            viol = dict(kind='output differs', inputs=v, output=n, simulator=D.get(w), verilog=vb.env[vname[w.oid]].v)
+                            break
+                    if viol:
+                        break
+            else:
+                for seq in sequences(ins, widths, 'quick', rnd):
+                    nrun += 1
+                    if nrun > (60 if tier == 'quick' else 300):
+                        break
+                    D.values = dict(snap_vals)
+                    for c_, at in snap_attr:
+                        c_.cfg.attr = {k: (list(x) if isinstance(x, list) else x) for k, x in at.items()}
+                    vb = fresh_body()
+                    D.settle()
+                    hist = []
+                    for t, v in enumerate([None] + seq):
+                        if v is not None:
+                            hist.append(v)
+                            for n, w in ins.items():
+                                D.put(w, v[n])
+                            D.settle()
+                            vb.set_inputs({vname[w.oid]: v[n] for n, w in ins.items()})
+                        for n, w in outs.items():
+                            if D.get(w) != vb.env[vname[w.oid]].v:
+                                viol = dict(kind='output differs in cycle %d (before the edge)' % t, inputs_so_far=list(hist), output=n,
+                                            simulator=D.get(w), verilog=vb.env[vname[w.oid]].v)
+                                break
+                        if viol:
+                            break
+                        if v is not None:
+                            D.clock()
+                            for ck in sorted({c for _, c in vb.clocks()}):
+                                vb.posedge(ck)
+                    if viol:
+                        break
+        except Nondet:
+            pass
+        except (EvalError, NetError) as e:
+            skipped.append('%s: netlist evaluation: %s' % (name, str(e)[:60]))
+            continue
+        except vlog.XValue as e:
+            viol = dict(kind='the generated design evaluates to x / is illegal: %s' % e)
+        if viol:
+            ctx.violation('C01.g', '%s:%s' % (name, viol.get('output', 'x')), 'whole design `%s`: generated Verilog and simulator disagree: %s' % (name, viol['kind']), where,
+                          witness=dict(viol, configuration=ptxt, emitted=text[:600]))
+        else:
+            done += 1
+            ctx.ok('C01.g', '%s %s' % (name, ptxt), '%d input %s agree between the elaborated netlist and the flattened generated Verilog' % (nrun, 'sequences' if D.seq else 'vectors'), grade='bounded')
+    ctx.analysed['whole_designs_skipped'] = skipped[:10]
+    ctx.floor('C01.g', 'whole designs co-simulated', done, 55)
+
+
 def run(ctx, sm, facts):
     tier = ctx.tier
     ctx.rule('C01.a', 'emitter tables resolve; every leaf classified inlined / body / transpiled')
@@ -468,6 +613,8 @@ def run(ctx, sm, facts):
     check_b(ctx, facts, inl, tier, ctx.seed)
     check_c(ctx, facts, inl, tier, ctx.seed)
     check_d(ctx, facts, body, tier, ctx.seed)
+    ctx.rule('C01.g', 'whole hierarchical designs: generator evaluated over the elaborated design, text flattened and co-simulated with the netlist')
+    check_g(ctx, facts, tier, ctx.seed)
     ctx.not_decided += ['equivalence of whole designs under event-driven simulation (interaction of several correct blocks)',
                         'parametric structural inlinables versus their own netlists (see C08)', 'transpiled blocks (C02)', 'Verilog x/z propagation',
                         'configurations outside the grid (widths above %d, wider constants)' % max(WIDTHS[tier])]
